@@ -1241,8 +1241,8 @@ class C19(Prop):
     functional = False
     quick_n = 60
     thorough_n = 600
-    rule = "CLI compile on sources succeeding / failing at every point (also after output was produced and inside imported files) x prior output state (absent, stale) x project/global configs x sequences of invocations; CLI new on fresh and existing names; distinct = distinct (source, prior state)"
-    explanation = "the CLI functions are called in a sandboxed HOME/cwd; file-system snapshots before/after are compared with the all-or-nothing specification; the compile result itself is compared with the model"
+    rule = "CLI compile on sources succeeding / failing at every point (also after output was produced and inside imported files) x prior output state (absent, stale) x project/global configs x sequences of invocations; CLI new on fresh and existing names; histories of 2-6 invocations (compile/new, flags given or not, outputs overwriting later sources) over two projects with partial/full/absent project and global configs; distinct = distinct (source, prior state)"
+    explanation = "the CLI functions are called in a sandboxed HOME/cwd; file-system snapshots before/after are compared with the all-or-nothing specification; the compile result itself is compared with the model; each history is also run through the model's cli_run and the final world (files, parsed configs with their key sets, global config, directories) and the per-invocation reports are compared"
 
     def generate(self, rng, n, tier):
         # the compile results of the sources used by the CLI runs are also compared with the model
@@ -1376,7 +1376,13 @@ class C19(Prop):
                             viol.append((case, "new_wrong_content", "the new project does not compile to the hello-world line under default options"))
         finally:
             shutil.rmtree(base, ignore_errors=True)
-        return {"violations": viol, "evaluations": ev, "summary": {"cli_compile_runs": len(srcs), "cli_new_runs": 4}}
+        # histories of CLI invocations against the model's cli_run (Model/CliWorld.v): per-invocation
+        # reports, every text file, every config.yaml (key set and values), the global config, directories
+        import clihist
+        hv, hev, hstats = clihist.run(rsub(rng), 15 if tier == "quick" and not escalate else 150)
+        viol.extend(hv)
+        ev += hev
+        return {"violations": viol, "evaluations": ev, "summary": {"cli_compile_runs": len(srcs), "cli_new_runs": 4, "cli_histories": hstats}}
 
 
 # ====================================================================================== C20
